@@ -46,6 +46,8 @@ func runC07(l *core.Ledger) {
 			}
 		})
 	}
+	l.Rule("C07-E7", "the stream is marked broken only while the failed stream is still the current one (C09-W8 re-run): marking a stream the reader has already restored makes the sender replace it, the reader stays parked on the replaced stream and the node - up and answering - never contributes a reply or an error again")
+	l.With(map[string]string{"C09-W8": "C07-E7"}, func() { c09W6(l, r) })
 	checkResponseProvenance(l, r, "C07-E2")
 	c07E3(l, r)
 	c07E4(l, r)
